@@ -29,7 +29,7 @@ def describe(tier):
                    "around_every_smooth_below": "2^62 (%s of the 75711): offsets -3..+3 and the midpoint to the next smooth number (+0, +1)" % b["around"],
                    "signal_lengths": [0, b["lmax"]]},
         "alphabet": ["next_fast_len(N)", "prev_fast_len(N)", "fast_len(z) on 6 classes x 2 rates x start/none",
-                     "N as Python int (and numpy.int64 for N < 4096)"],
+                     "N as Python int; as numpy int8..uint64 scalar (asked before the Python int: shared memo key)", "NumPy and Dask (1 chunk, chunks of 7, two chunks) data"],
         "rule": "state = (function, N) or (class, rate, start, L); every state is one real call; "
                 "expected value by bisect in the independent sorted 7-smooth list",
     }
@@ -59,6 +59,11 @@ def gen_cases(tier, seed):
     for i in range(0, len(idx), per):
         yield {"kind": "around", "idx": idx[i:i + per]}
     yield {"kind": "npint", "hi": 4096}
+    # NumPy integer scalars as N (every width that can hold the value), asked BEFORE the Python int of the same value
+    # (the memo treats them as one key): around every prime power and a rotating slice of the smooth numbers
+    npidx = sorted(pp | set(range(seed % 97, n62, 97)))
+    for i in range(0, len(npidx), 200):
+        yield {"kind": "npwide", "idx": npidx[i:i + 200]}
     for cls in factory.CLASSES:
         for rate_name in ("1Hz", "3.7GHz"):
             for start_name in ("none", "iso"):
@@ -113,6 +118,32 @@ def check_case(case):
                 if int(got) != ref(n, lst):
                     res.violation(f"{fn_name}|np.int64|wrong value",
                                   f"{fn_name}(np.int64({n})) = {got!r}, want {ref(n, lst)}", case, {"N": n})
+    elif kind == "npwide":
+        import warnings
+        for i in case["idx"]:
+            s = lst[i]
+            for n in (s - 1, s, s + 1, (s + lst[i + 1]) // 2):
+                if n < 0:
+                    continue
+                for T in (np.int8, np.uint8, np.int16, np.uint16, np.int32, np.uint32, np.int64, np.uint64):
+                    if n > np.iinfo(T).max:
+                        continue
+                    for fn_name, fn, ref in (("next_fast_len", nfl, smooth.ref_next), ("prev_fast_len", pfl, smooth.ref_prev)):
+                        want = ref(n, lst)
+                        fn.cache_clear()
+                        with warnings.catch_warnings():
+                            warnings.simplefilter("ignore")
+                            got = fn(T(n))
+                            again = fn(n)           # the Python int right after (same memo key)
+                        res.transitions += 2
+                        res.traces += 2
+                        res.state((fn_name, T.__name__, n))
+                        if int(got) != want or int(again) != want:
+                            res.violation(f"{fn_name}|numpy integer argument|wrong value",
+                                          f"{fn_name}(np.{T.__name__}({n})) = {got!r}, then {fn_name}({n}) = {again!r}; nearest 7-smooth is {want}",
+                                          case, {"N": n, "type": T.__name__})
+                        elif 2 * n > np.iinfo(T).max:
+                            res.hits["numpy integer whose double does not fit its width"] += 1
     elif kind == "fast_len":
         cls = case["cls"]
         for L in range(0, case["lmax"] + 1):
@@ -142,6 +173,25 @@ def check_case(case):
                 res.hits["fast_len cropped"] += 1
             else:
                 res.hits["fast_len kept all"] += 1
+            # the same on Dask-backed data, one chunk and several chunks along time
+            if L % 3 == case["lmax"] % 3 or L < 40:
+                import dask.array as da
+                for chunks in ((max(L, 1),), (7,), (max(1, L // 2),)):
+                    zd = type(z).like(z, da.from_array(np.asarray(z.data), chunks=chunks + tuple(z.shape[1:])))
+                    od = pb.fast_len(zd)
+                    res.transitions += 1
+                    if not isinstance(od.data, da.Array) or len(od) != want or tuple(od.shape) != (want,) + tuple(z.shape[1:]):
+                        res.violation("fast_len|dask|advertised length", f"L={L} chunks={chunks}: type {type(od.data).__name__}, "
+                                      f"shape {od.shape}, want length {want}", case, dict(sub, chunks=list(chunks)))
+                        continue
+                    got = np.asarray(od.data.compute())
+                    if got.shape != np.asarray(out.data).shape or not np.array_equal(got, np.asarray(out.data)):
+                        res.violation("fast_len|dask|data", f"L={L} chunks={chunks}: computed samples differ from z[:{want}]",
+                                      case, dict(sub, chunks=list(chunks)))
+                    if (od.start_time is None) != (z.start_time is None) or (
+                            z.start_time is not None and exact.time_days(od.start_time) != exact.time_days(out.start_time)):
+                        res.violation("fast_len|dask|start_time", f"L={L}", case, dict(sub, chunks=list(chunks)))
+                    res.hits["fast_len on Dask data"] += 1
         res.sample({"cls": cls, "L": 11, "len(fast_len)": len(pb.fast_len(
             factory.make_encoded(cls, 11, rate_name=case["rate"], start_name=case["start"])))}, 1)
     return res
@@ -150,8 +200,9 @@ def check_case(case):
 def main(argv=None):
     return report.run_check(
         PID, gen_cases=gen_cases, check_case=check_case, describe=describe,
-        required_hits=["N itself smooth", "N not smooth", "N above 2^40", "fast_len cropped", "fast_len kept all"],
-        assumptions=["N is a Python int (numpy.int64 only below 4096)",
+        required_hits=["N itself smooth", "N not smooth", "N above 2^40", "fast_len cropped", "fast_len kept all",
+                       "fast_len on Dask data", "numpy integer whose double does not fit its width"],
+        assumptions=["N is a Python int, or a NumPy integer scalar of any width that holds it (around the prime powers and 1/97 of the smooth numbers)",
                      "7-smooth reference list generated by nested multiplication, self-checked against trial division"],
         argv=argv)
 
